@@ -521,6 +521,60 @@ def thread_search(template, pid, secs):
     return None
 
 
+# Histories the proved profile of an operator does not contain, although the properties quantify over them
+# (share: a fan-out nested inside another; combine: members that greet after the subscribing call returned).
+# They are explored by the bounded stand-in on every run, as a labelled supplement to the proof.
+PROFILE_GAPS = {
+    "share": {"scenarios": ["share2", "share3"], "why": "nested fan-out (a sink pulls from inside its handler and the source answers at once) is outside profile R of the unit share",
+              "properties": ["C01", "C02", "C03", "C04", "C05", "C12", "C17"]},
+    "combine": {"scenarios": ["combine2L"], "why": "members of combine that greet after the subscribing call returned are outside the profile of the units combineN",
+                "properties": ["C01", "C02", "C03", "C04", "C05", "C10", "C17"]},
+}
+
+
+def gap_search(pid, key):
+    """-> (hit or None, stats): the supplement is cached per tree like the pipeline"""
+    path = os.path.join(BUILD, "cache", f"{key}.gaps.json")
+    try:
+        cache = json.load(open(path))
+    except Exception:
+        cache = {}
+    stats, hit = [], None
+    for op, gap in sorted(PROFILE_GAPS.items()):
+        if pid not in gap["properties"]:
+            continue
+        ck = f"{op}:{pid}"
+        if ck not in cache:
+            if tree_changed_since_replay_build() and not build_replay():
+                continue
+            excl = []
+            for f in load_findings().get("findings", []):
+                if f.get("replay") and f["replay"]["scenario"].rstrip("LXPR") in [x.rstrip("LXPR") for x in gap["scenarios"]]:
+                    for x in f.get("excludes", [f["replay"]["expect"]]):
+                        excl += ["--exclude", x]
+            entry = {"scenarios": [], "runs": 0, "hit": None}
+            for sc in gap["scenarios"]:
+                try:
+                    p = subprocess.run([REPLAY, "search", sc, "--property", pid, "--len", "10", "--budget", "1500000"] + excl, capture_output=True, text=True, timeout=900)
+                    d = json.loads(p.stdout)
+                except Exception:
+                    continue
+                if d.get("tape") is not None:
+                    d["scenario"] = sc
+                    entry["hit"] = d
+                    break
+                entry["scenarios"].append(sc)
+                entry["runs"] += d.get("runs", 0)
+            cache[ck] = entry
+            os.makedirs(os.path.dirname(path), exist_ok=True)
+            json.dump(cache, open(path, "w"))
+        e = cache[ck]
+        stats.append({"operator": op, "outside_the_proved_profile": gap["why"], "scenarios": e["scenarios"], "runs": e["runs"], "max_len": 10})
+        if e.get("hit") and hit is None:
+            hit = dict(e["hit"], operator=op, why=gap["why"])
+    return hit, stats
+
+
 def replay_run(scenario, tape):
     p = sh([REPLAY, "run", scenario, json.dumps(tape)])
     try:
@@ -828,6 +882,26 @@ def main():
                                              "replay_cmd": cex.get("replay_cmd") or f"{REPLAY} run {cex['scenario']} '{json.dumps(cex['tape'])}'"}}, open(path, "w"), indent=1)
                 print(f"VIOLATION property={a.property} replay={path}")
                 sys.exit(1)
+    gap_stats = []
+    if not viol:
+        hit, gap_stats = gap_search(a.property, tree_key(a.tier))
+        if hit:
+            os.makedirs(os.path.join(EVID, "replay"), exist_ok=True)
+            path = os.path.join(EVID, "replay", f"{a.property}-{hit['operator']}.profile-gap.json")
+            json.dump({"property": a.property, "obligation": f"{hit['operator']}: bounded exploration of histories outside the proved profile ({hit['why']})",
+                       "level": "bounded exploration, not a proof",
+                       "failing_input": {"scenario": hit["scenario"], "tape": hit["tape"], "violations": hit["violations"], "history": hit["history"],
+                                         "replay_cmd": f"{REPLAY} run {hit['scenario']} '{json.dumps(hit['tape'])}'"}}, open(path, "w"), indent=1)
+            print(f"VIOLATION property={a.property} replay={path}")
+            sys.exit(1)
+        if gap_stats and not a.no_evidence:
+            # recorded next to the proof figures, as what it is
+            try:
+                ev = json.load(open(os.path.join(EVID, a.property + ".json")))
+                ev["coverage"]["supplementary_bounded_exploration"] = gap_stats
+                json.dump(ev, open(os.path.join(EVID, a.property + ".json"), "w"), indent=1)
+            except Exception:
+                pass
     if viol:
         os.makedirs(os.path.join(EVID, "replay"), exist_ok=True)
         done = set()
